@@ -45,7 +45,11 @@ fn exec(line: &str) -> (String, Option<String>, bool) {
     parts.reverse();
     let Some(Sx::L(l)) = sx_parse(parts[0]) else { return ("bad-op".into(), None, false) };
     let vds: Vec<VD> = l[1..].iter().map(|s| rd(s).expect("bad view")).collect();
-    let store: Vec<u32> = if parts[1] == "-" { vec![] } else { parts[1].split(',').map(|x| x.parse().unwrap()).collect() };
+    let store0: Vec<u32> = if parts[1] == "-" { vec![] } else { parts[1].split(',').map(|x| x.parse().unwrap()).collect() };
+    // writes made while the view is built (`setnow`: after the parts before it exist, before anything is mounted) belong
+    // to the build: the state the page starts from; the reference render starts from that state without repeating them
+    let store: Vec<u32> = store_after_build(&vds, &store0);
+    let vds_ref: Vec<VD> = vds.iter().map(|v| if let VD::SetNow(..) = v { VD::Frag(vec![]) } else { v.clone() }).collect();
     let writes: Vec<(usize, u32)> = if parts[2] == "-" { vec![] } else { parts[2].split(',').map(|w| { let (i, v) = w.split_once('=').unwrap(); (i.parse().unwrap(), v.parse().unwrap()) }).collect() };
 
     domutil::reset_document();
@@ -53,7 +57,7 @@ fn exec(line: &str) -> (String, Option<String>, bool) {
     let mut sigs: Vec<Signal<u32>> = vec![];
     let mut out = vec![];
     let mut verdict: Option<String> = None;
-    let (c2, v2, st2) = (container.clone(), vds.clone(), store.clone());
+    let (c2, v2, st2) = (container.clone(), vds.clone(), store0.clone());
     let mut sig_out: Vec<Signal<u32>> = vec![];
     let r = catch(|| {
         let so = &mut sig_out;
@@ -65,6 +69,33 @@ fn exec(line: &str) -> (String, Option<String>, bool) {
         })
     });
     let root = match r { Ok(r) => r, Err(m) => return ("panic".into(), Some(format!("[view-panic] mounting panicked: {m}")), false) };
+    // known finding D26: a write before mounting that makes a region WITHOUT A PARENT (top level of the view, directly or
+    // through fragments and other such regions) re-run, when that re-run matters: it changes what the region displays, or
+    // the region has dynamic content (the re-run re-creates it, but the nodes that get mounted are the old ones)
+    fn has_dynamic(v: &VD) -> bool {
+        match v {
+            VD::El(_, attrs, cs) => attrs.iter().any(|(_, a)| !matches!(a, AttrV::Static(_))) || cs.iter().any(has_dynamic),
+            VD::Text(_) | VD::OnCleanup(..) | VD::SetNow(..) => false,
+            VD::Frag(cs) | VD::NoHydrate(cs) | VD::NoSsr(cs) => cs.iter().any(has_dynamic),
+            _ => true,
+        }
+    }
+    fn unparented<'a>(v: &'a VD, out: &mut Vec<&'a VD>) {
+        match v {
+            VD::Frag(cs) | VD::NoHydrate(cs) => cs.iter().for_each(|c| unparented(c, out)),
+            VD::DView(_, alts) | VD::DView0(_, alts) => { out.push(v); alts.iter().for_each(|a| a.iter().for_each(|c| unparented(c, out))); }
+            VD::Show(_, cs) => { out.push(v); cs.iter().for_each(|c| unparented(c, out)); }
+            _ => {}
+        }
+    }
+    let mut regions = vec![];
+    vds.iter().for_each(|v| unparented(v, &mut regions));
+    let d26 = vds.iter().any(|v| if let VD::SetNow(g, x) = v {
+        regions.iter().any(|t| match t {
+            VD::DView(h, alts) if h == g => alts.is_empty() || (store0[*g] as usize) % alts.len() != (*x as usize) % alts.len() || alts.iter().any(|a| a.iter().any(has_dynamic)),
+            VD::Show(h, cs) if h == g => store0[*g] % 2 != *x % 2 || cs.iter().any(has_dynamic),
+            _ => false })
+    } else { false });
     sigs.extend(sig_out);
     domutil::run_microtasks();
     let mut names: HashMap<u64, usize> = HashMap::new();
@@ -72,7 +103,7 @@ fn exec(line: &str) -> (String, Option<String>, bool) {
     // oracle: a fresh render of the current state in a second container has the same shape
     let fresh_shape = |cur: &[u32]| -> Result<String, String> {
         let other = domutil::container("aside");
-        let (o2, v3, c3) = (other.clone(), vds.clone(), cur.to_vec());
+        let (o2, v3, c3) = (other.clone(), vds_ref.clone(), cur.to_vec());
         let r = catch(|| create_root(move || {
             let sigs: Vec<Signal<u32>> = c3.iter().map(|v| create_signal(*v)).collect();
             let view = View::from(v3.iter().map(|v| build(v, &sigs)).collect::<Vec<View>>());
@@ -106,6 +137,7 @@ fn exec(line: &str) -> (String, Option<String>, bool) {
         step_check(&mut out, &mut verdict, &mut names, &cur, &format!("signal {i} := {v}"));
     }
     let _ = catch(|| root.dispose());
+    let verdict = verdict.map(|v| if d26 { format!("[view-write-before-mount] {v}") } else { v });
     (out.join(" | "), verdict, !writes.is_empty())
 }
 
@@ -139,13 +171,33 @@ pub fn generate(args: &Args) -> Vec<String> {
             l.push(format!("view run {f} {st} {ws}"));
         }
     }
+    // writes made between the creation of a part of the view and its mounting (a component further down publishing
+    // state): dynamic texts and attributes follow at once, dynamic regions INSIDE elements too; a top-level region
+    // re-runs without a parent — when the write leaves its choice of content unchanged nothing is lost, and it must
+    // stay subscribed (the other case is known finding D26, last family)
+    let fam_sn = [
+        ("(L (dview 0 (alt (text 97)) (alt (el 98 (A) (C)))) (setnow 0 2) (el 100 (A) (C (dtext 0))))", "0,0", "0=1,0=2,0=3"),
+        ("(L (dview 0 (alt (text 97) (dtext 0)) (alt (el 98 (A) (C)))) (show 1 (text 99)) (setnow 0 12) (setnow 1 2))", "0,0", "1=1,0=1,0=4,1=0"),
+        ("(L (el 100 (A (99 (d 0))) (C (dview 0 (alt (text 97)) (alt (el 98 (A) (C)))) (dtext 0))) (setnow 0 5))", "0,1", "0=2,0=3"),
+        ("(L (frag (dview 1 (alt (dview 0 (alt (text 97)) (alt (text 98)))) (alt (text 99)))) (setnow 0 2) (setnow 1 2))", "0,0", "0=1,1=1,0=2,1=0"),
+        ("(L (dview 0 (alt (text 97)) (alt (el 98 (A) (C)))) (setnow 0 1))", "0,0", "0=2,0=3"),
+    ];
+    for (f, st, ws) in fam_sn { l.push(format!("view run {f} {st} {ws}")); }
     let n = if thorough { 150_000 } else { 4_000 };
-    for _ in 0..n {
+    for i in 0..n {
         let nsig = 1 + rng.below(3);
         let mut budget = 12;
         let k = 1 + rng.below(2);
-        let vds: Vec<VD> = (0..k).map(|_| gen(&mut rng, 4, nsig, &mut budget)).collect();
+        let mut vds: Vec<VD> = (0..k).map(|_| gen(&mut rng, 4, nsig, &mut budget)).collect();
         let store: Vec<String> = (0..nsig + 1).map(|_| rng.below(4).to_string()).collect();
+        // one case in six: a write before mounting that changes no choice of content (same value, or + 12 = lcm of
+        // the numbers of alternatives): every region re-runs once before it has a parent
+        if i % 6 == 5 {
+            let g = rng.below(nsig);
+            let v: u32 = store[g].parse::<u32>().unwrap() + if rng.chance(1, 2) { 12 } else { 0 };
+            let at = 1 + rng.below(vds.len());
+            vds.insert(at, VD::SetNow(g, v));
+        }
         let nw = 1 + rng.below(8);
         let ws: Vec<String> = (0..nw).map(|_| format!("{}={}", rng.below(nsig), rng.below(7))).collect();
         l.push(format!("view run (L{}) {} {}", vds.iter().map(|v| format!(" {}", sx(v))).collect::<String>(), store.join(","), ws.join(",")));
